@@ -14,30 +14,47 @@ from pgverif.monitors import tree as TM
 T = pg.typing
 
 TIERS = {
-    'quick': dict(shards=4, cases=200, steps=30),
+    'quick': dict(shards=6, cases=170, steps=30),
     'thorough': dict(shards=16, cases=1200, steps=60),
 }
-RULE = ('case = a typed root (object of a schema class, pg.Dict or pg.List bound to a '
-        'generated value spec; flags allow_partial x pg.allow_partial scope) and a '
-        'history mixing valid and invalid writes through every write path of the '
-        'operation table; schema_ok re-validates every typed node after every step, '
-        'rejected writes are checked for exception class and for leaving the tree '
-        'unchanged. Non-trivial = at least 3 accepted and 2 rejected writes; distinct '
-        'by (root kind, operation/outcome sequence).')
+RULE = ('case = a forest of 1-3 typed roots (object of a schema class incl. field-less classes '
+        'and classes with required members nested 2-3 levels, pg.Dict or pg.List bound to a '
+        'generated value spec incl. zero-field Dict specs; flags allow_partial x '
+        'pg.allow_partial scope; a share of roots is first constructed from an invalid '
+        'value) and a history mixing valid and invalid writes through every write path of '
+        'the operation table, writes that make required members missing (addressed through '
+        'the member or an ancestor), writes to undeclared keys, moves of live nodes/roots '
+        'into typed fields, schema-less symbolic operands for typed fields, retries of a '
+        'rejected write with the same operand objects, later use of rejected operands, and '
+        'derived-state queries (is_partial, sym_missing, ...) between steps; schema_ok '
+        're-validates every typed node after every step (partiality is decided by walking '
+        'the members, tolerated only below a root/location that was explicitly made '
+        'partial), rejected writes are checked for exception class, for leaving the tree '
+        'unchanged and for leaving their operands in a state their schema accepts. '
+        'Non-trivial = at least 3 accepted and 2 rejected writes; distinct by (root kind, '
+        'operation/outcome sequence).')
 REQUIRED_COUNTERS = ['schema_ok_evals', 'schema_ok_members', 'steps_ok', 'class_default_checks',
-                     'steps_rejected', 'rejected_unchanged_checks']
+                     'steps_rejected', 'rejected_unchanged_checks', 'rejected_operand_checks',
+                     'retries', 'typed_moves', 'observations', 'zero_field_nodes']
 ASSUMPTIONS = [
     'type checking is on (pg.enable_type_check(False) is never entered)',
     'acceptance oracle: ValueSpec.apply on a detached plain copy of the stored member',
     'for batch operations (multi-path rebind, update, extend, slice assignment, |=, +=) a valid prefix may have been applied; only single-target rejected writes must leave the JSON of the tree unchanged',
+    'a missing required member is tolerated below a root that was written to inside pg.allow_partial(True) (or derives from one), below a node whose allow_partial flag (own or ancestor) is set, and below a location whose declared spec does not constrain completeness (Any, Union, undeclared); everywhere else it is a violation, whatever is_partial of the library says',
+    'the content of the operand of a rejected write is a don\'t-care (it may have been converted in place); if it carries a schema afterwards it must satisfy it',
 ]
 ALLOWED_ERRORS = (TypeError, ValueError, KeyError, IndexError, pg.WritePermissionError)
+OBSERVERS = ('is_partial', 'sym_partial', 'sym_missing', 'missing_values', 'sym_nondefault',
+             'non_default_values', 'sym_missing[flat]')
+NESTED_KINDS = ('ReqHolder', 'ReqHolder', 'ReqTop', 'ReqTop', 'ReqMid', 'ReqMid', 'ReqLeaf', 'Empty',
+                'HolderDict', 'EmptyDict', 'MidList')
 
 
 def rand_spec(rng, depth=0):
   r = rng.random()
   if depth >= 2 or r < 0.45:
-    k = rng.choice(['int', 'int', 'float', 'str', 'enum', 'bool', 'any', 'union', 'obj'])
+    k = rng.choice(['int', 'int', 'float', 'str', 'enum', 'bool', 'any', 'union', 'obj',
+                    'objreq', 'empty'])
     if k == 'int':
       lo = rng.choice([None, 0, -2]); hi = rng.choice([None, 5, 9])
       s = T.Int(min_value=lo, max_value=hi)
@@ -53,11 +70,15 @@ def rand_spec(rng, depth=0):
       s = T.Any()
     elif k == 'union':
       s = T.Union([T.Int(min_value=0), T.Str()])
+    elif k == 'objreq':
+      s = T.Object(rng.choice([M.ReqLeaf, M.ReqMid, M.ReqMid, M.ReqTop]))
+    elif k == 'empty':
+      s = T.Object(M.Empty) if rng.random() < 0.5 else T.Dict([])
     else:
       s = T.Object(M.Inner)
     if rng.random() < 0.25 and k != 'any':
       s = s.noneable()
-    if rng.random() < 0.12 and k not in ('any', 'obj'):
+    if rng.random() < 0.12 and k not in ('any', 'obj', 'objreq', 'empty'):
       # frozen (alone or together with noneable): the frozen value is the only
       # acceptable one, None included.
       try:
@@ -71,7 +92,8 @@ def rand_spec(rng, depth=0):
     lo = rng.choice([0, 0, 1, 2]); hi = rng.choice([None, lo + 1, lo + 3])
     return T.List(rand_spec(rng, depth + 1), min_size=lo, max_size=hi)
   fields = []
-  for name in rng.sample(['a', 'b', 'c', 'd'], rng.randint(1, 3)):
+  # zero declared keys is a schema too (every key is undeclared)
+  for name in rng.sample(['a', 'b', 'c', 'd'], rng.choice([0, 1, 1, 2, 2, 3])):
     fs = rand_spec(rng, depth + 1)
     if rng.random() < 0.5:
       try:
@@ -84,32 +106,86 @@ def rand_spec(rng, depth=0):
   return T.Dict(fields)
 
 
+HOLDER_DICT_SPEC = T.Dict([
+    ('top', T.Object(M.ReqTop).noneable()),
+    ('mid', T.Object(M.ReqMid).noneable()),
+    ('e', T.Dict([])),
+    ('eo', T.Object(M.Empty).noneable()),
+    ('sd', T.Dict([('x', T.Int(default=0))]).noneable()),
+    ('sl', T.List(T.Int()).noneable()),
+    (T.StrKey(), T.Object(M.ReqMid)),
+])
+
+
+def nested_root(rng, kind=None):
+  """(label, value) of the C03 model classes: required members nested several
+  levels, holders with non-partial typed fields, zero-field schemas."""
+  kind = kind or rng.choice(NESTED_KINDS)
+  if kind == 'HolderDict':
+    v = pg.Dict(V.value_for(HOLDER_DICT_SPEC, rng, valid=True), value_spec=HOLDER_DICT_SPEC)
+    return 'pg.Dict(value_spec=HOLDER_DICT_SPEC)', v
+  if kind == 'EmptyDict':
+    return 'pg.Dict(value_spec=Dict([]))', pg.Dict(value_spec=T.Dict([]))
+  if kind == 'MidList':
+    spec = T.List(T.Object(M.ReqMid), max_size=3)
+    return 'pg.List(value_spec=List(Object(ReqMid), max_size=3))', pg.List(
+        V.value_for(spec, rng, valid=True), value_spec=spec)
+  d = D.typed_obj(rng, kind, fill=0.4)
+  return D.show(d), D.build(d)
+
+
+def spec_root(rng):
+  """pg.Dict / pg.List bound to a generated spec; a share is first constructed
+  from an invalid value (which must be refused). Returns (label, value, refused)."""
+  for _ in range(20):
+    spec = rand_spec(rng, 0)
+    while not isinstance(spec, (T.List, T.Dict)):
+      spec = rand_spec(rng, 0)
+    partial = rng.random() < 0.3
+    ctor = pg.List if isinstance(spec, T.List) else pg.Dict
+    if rng.random() < 0.2 and not partial:
+      bad = V.invalid_for(spec, rng)
+      if isinstance(spec, T.Dict) and spec.schema is not None and (
+          not spec.schema.dynamic_field) and rng.random() < 0.6:
+        # the reference rule for an undeclared key does not consult the library
+        bad = dict(V.value_for(spec, rng, valid=True))
+        bad[rng.choice(['zz', 'nk', 'x1'])] = rng.choice([1, 'v', None])
+        if any(k in bad for k in [str(k) for k in spec.schema.fields.keys()]
+               if k in ('zz', 'nk', 'x1')):
+          bad = None
+      if isinstance(bad, (dict if ctor is pg.Dict else list)):
+        try:
+          v = ctor(copy.deepcopy(bad), value_spec=spec)
+          return (f'{ctor.__name__}({bad!r:.120}, value_spec={spec!r}) [invalid initial value]',
+                  v, False)
+        except (TypeError, ValueError, KeyError):
+          pass
+    try:
+      v = ctor(V.value_for(spec, rng, valid=True), value_spec=spec, allow_partial=partial)
+      return f'{type(v).__name__}(value_spec={spec!r}, allow_partial={partial})', v, True
+    except (TypeError, ValueError, KeyError):
+      continue
+  return None
+
+
 def make_root(rng):
   """Returns (description, value)."""
   r = rng.random()
-  if r < 0.45:
+  if r < 0.3:
     d = D.typed_obj(rng, 'Typed2' if rng.random() < 0.3 else None)
     return D.show(d), D.build(d)
-  if r < 0.55:
+  if r < 0.38:
     kw = {}
     if rng.random() < 0.6:
       kw['r'] = rng.randint(0, 5)
     if rng.random() < 0.5:
       kw['rd'] = {'a': 1} if rng.random() < 0.5 else {}
     return f'Required.partial({kw})', M.Required.partial(**kw)
-  for _ in range(20):
-    spec = rand_spec(rng, 0)
-    while not isinstance(spec, (T.List, T.Dict)):
-      spec = rand_spec(rng, 0)
-    partial = rng.random() < 0.3
-    try:
-      if isinstance(spec, T.List):
-        v = pg.List(V.value_for(spec, rng, valid=True), value_spec=spec, allow_partial=partial)
-      else:
-        v = pg.Dict(V.value_for(spec, rng, valid=True), value_spec=spec, allow_partial=partial)
-      return f'{type(v).__name__}(value_spec={spec!r}, allow_partial={partial})', v
-    except (TypeError, ValueError, KeyError):
-      continue
+  if r < 0.62:
+    return nested_root(rng)
+  got = spec_root(rng)
+  if got is not None:
+    return got[0], got[1]
   d = D.typed_obj(rng, 'Typed')
   return D.show(d), D.build(d)
 
@@ -127,14 +203,309 @@ def snapshot(forest):
   return out
 
 
-def any_partial(forest):
-  return any(n.allow_partial for _, _, n in H.all_nodes(forest))
-
-
 def schema_classes():
   return [c for c in vars(M).values()
           if isinstance(c, type) and issubclass(c, pg.Object) and c is not pg.Object
           and c.__module__ == M.__name__]
+
+
+def is_typed(n):
+  return isinstance(n, pg.Object) or (
+      isinstance(n, (pg.Dict, pg.List)) and n.value_spec is not None)
+
+
+def kind_of(v):
+  return O.node_kind(v) or type(v).__name__
+
+
+# -- operands -----------------------------------------------------------------
+
+def as_symbolic_desc(v):
+  """Schema-less symbolic form of a plain dict/list (members stay plain)."""
+  if isinstance(v, dict):
+    return ['D', [[k, ['v', x]] for k, x in v.items()]]
+  if isinstance(v, list):
+    return ['L', [['v', x] for x in v]]
+  return None
+
+
+def base_spec_kind(spec):
+  for cls, name in ((T.Object, 'Object'), (T.Dict, 'Dict'), (T.List, 'List')):
+    if isinstance(spec, cls):
+      return name
+  return None
+
+
+def compatible_nodes(forest, target, spec, used_roots):
+  """[(ridx, keys)] of live nodes whose kind fits a container/object spec."""
+  kind = base_spec_kind(spec)
+  tr, tk = target
+  out = []
+  for ridx, keys, n in H.all_nodes(forest):
+    if ridx == tr and H.is_prefix(keys, tk) and not keys:
+      continue                  # the target's own root: would form a cycle
+    if not keys and ridx in used_roots:
+      continue
+    if kind == 'Object':
+      cls = spec.cls
+      if not (isinstance(cls, type) and isinstance(n, cls)):
+        continue
+    elif kind == 'Dict':
+      if not isinstance(n, pg.Dict):
+        continue
+    elif not isinstance(n, pg.List):
+      continue
+    out.append((ridx, keys))
+  return out
+
+
+class Values(H.ValueSource):
+  """Adds to the shared value source, for locations typed with an Object, Dict
+  or List spec: live nodes of the forest (roots are moved, inner nodes copied)
+  and schema-less pg.Dict / pg.List operands (valid or invalid content)."""
+
+  def __init__(self, forest, target, p_move=0.14, p_symbolic=0.2, stats=None, **kw):
+    super().__init__(forest, target, **kw)
+    self.p_move, self.p_symbolic, self.stats = p_move, p_symbolic, stats
+
+  def __call__(self, rng, node, key):
+    field = None
+    if node is not None and key is not None:
+      try:
+        field = node.sym_attr_field(key)
+      except Exception:  # pylint: disable=broad-except
+        field = None
+    if field is not None and base_spec_kind(field.value):
+      r = rng.random()
+      if r < self.p_move:
+        cands = compatible_nodes(self.forest, self.target, field.value, self.used_roots)
+        roots = [c for c in cands if not c[1]]
+        if roots and rng.random() < 0.6:
+          cands = roots
+        if cands:
+          ridx, keys = rng.choice(cands)
+          if not keys:
+            self.used_roots.add(ridx)
+          if self.stats is not None:
+            self.stats['typed_move_operands'] += 1
+          return ['node', ridx, keys]
+      elif r < self.p_move + self.p_symbolic and base_spec_kind(field.value) != 'Object':
+        v = (V.invalid_for(field.value, rng) if rng.random() < 0.45
+             else V.value_for(field.value, rng, valid=True))
+        d = as_symbolic_desc(v)
+        if d is not None:
+          if self.stats is not None:
+            self.stats['schemaless_symbolic_operands'] += 1
+          return d
+    return super().__call__(rng, node, key)
+
+
+def execute(forest, step, record=None, replay=None):
+  """O.execute that remembers the operand objects it built (`record`), or runs
+  the step again with the very same operand objects (`replay`)."""
+  o = O.OPS[step['op']]
+  node = D.resolve(forest, step['at'][0], step['at'][1])
+  if replay is not None:
+    it = iter(replay)
+    def B(d):
+      got = next(it, None)
+      return got[1] if got is not None else D.build(d, forest)
+  else:
+    def B(d):
+      v = D.build(d, forest)
+      if record is not None:
+        x = v.value if isinstance(v, pg.Insertion) else v
+        record.append((d, v, getattr(x, 'value_spec', None)))
+      return v
+  try:
+    with O.scopes(step.get('scopes', ())):
+      return 'ok', o.run(node, step['args'], B)
+  except Exception as e:  # pylint: disable=broad-except
+    return 'raise', e
+
+
+def operands_of(record):
+  """[(description, symbolic operand object, its value_spec before the call)]:
+  operands the step built itself and live nodes it passed (`node` aliases)."""
+  out = []
+  for d, v, pre_spec in record:
+    if isinstance(v, pg.Insertion):
+      d, v = (d[1] if d and d[0] == 'ins' else d), v.value
+    if isinstance(v, pg.Symbolic) and not isinstance(v, pg.Ref) and not any(
+        v is x for _, x, _ in out):
+      out.append((d, v, pre_spec))
+  return out
+
+
+def srepr(x):
+  try:
+    return repr(x)[:200]
+  except Exception as e:  # pylint: disable=broad-except
+    return f'<{type(x).__name__}: repr raised {type(e).__name__}>'
+
+
+def stored_in_parent(v):
+  par = v.sym_parent
+  return par is not None and any(c is v for _, c in TM.children(par))
+
+
+# -- directed steps ---------------------------------------------------------------
+
+def rebind_step(ridx, keys, rel, value, rng, scopes):
+  return {'op': 'rebind', 'at': [ridx, list(keys)],
+          'args': {'updates': [[list(rel), value]], 'opts': {}, 'form': 'dict',
+                   'style': rng.choice(['raw', 'keypath', 'str']),
+                   'api': rng.choice(['rebind', 'rebind', 'sym_rebind'])},
+          'scopes': scopes}
+
+
+def address(rng, ridx, keys, rel):
+  """The same location addressed from the node itself or from an ancestor."""
+  cut = rng.randint(0, len(keys)) if rng.random() < 0.5 else len(keys)
+  return ridx, keys[:cut], keys[cut:] + rel
+
+
+def gen_make_missing(rng, forest):
+  """A declared member of a typed Dict/Object is rebound to MISSING_VALUE
+  (allowed inside pg.allow_partial(True) or in a partial value only)."""
+  cands = []
+  for ridx, keys, n in H.all_nodes(forest):
+    if isinstance(n, pg.List) or not is_typed(n):
+      continue
+    for k in n.sym_keys():
+      f = n.sym_attr_field(k)
+      if f is not None and not f.value.frozen:
+        cands.append((ridx, keys, k, not f.value.has_default, len(keys)))
+  if not cands:
+    return None
+  req = [c for c in cands if c[3]]
+  deep = [c for c in req if c[4] >= 1]
+  pool = deep if deep and rng.random() < 0.6 else (req if req and rng.random() < 0.8 else cands)
+  ridx, keys, k, _, _ = rng.choice(pool)
+  ridx, at, rel = address(rng, ridx, keys, [k])
+  sc = ['partial'] if rng.random() < 0.75 else []
+  return rebind_step(ridx, at, rel, ['missing'], rng, sc)
+
+
+def gen_undeclared(rng, forest):
+  """A write to a key the schema does not declare (object / dict without a
+  dynamic key), addressed from the node or an ancestor."""
+  cands = []
+  for ridx, keys, n in H.all_nodes(forest):
+    if isinstance(n, pg.List) or not is_typed(n):
+      continue
+    schema, _ = SM.schema_of(n)
+    if schema is None or schema.dynamic_field is not None:
+      continue
+    cands.append((ridx, keys, n, len(list(schema.fields.keys())) == 0))
+  if not cands:
+    return None
+  zero = [c for c in cands if c[3]]
+  ridx, keys, n, _ = rng.choice(zero if zero and rng.random() < 0.5 else cands)
+  declared = {str(k) for k in SM.schema_of(n)[0].fields.keys()}
+  names = [k for k in ('zz', 'nk', 'x1', 'undeclared_') if k not in declared]
+  k = rng.choice(names)
+  ridx, at, rel = address(rng, ridx, keys, [k])
+  sc = [s for s, p in (('partial', 0.1), ('notify_off', 0.05)) if rng.random() < p]
+  return rebind_step(ridx, at, rel, ['v', rng.choice([1, 'v', None, [1], {'a': 1}])], rng, sc)
+
+
+def gen_move(rng, forest, stats):
+  """A live root (or inner node) is assigned to a location typed with an
+  Object/Dict/List spec of another (or the same) tree, outside any partial scope."""
+  targets = []
+  for ridx, keys, n in H.all_nodes(forest):
+    if not is_typed(n):
+      continue
+    if isinstance(n, pg.List):
+      f = n.sym_attr_field(0)
+      if f is not None and base_spec_kind(f.value):
+        targets.append((ridx, keys, n, len(n), f))
+      continue
+    schema, _ = SM.schema_of(n)
+    if schema is None:
+      continue
+    for ks, f in schema.fields.items():
+      if base_spec_kind(f.value) and not f.value.frozen:
+        k = str(ks) if isinstance(ks, T.ConstStrKey) else rng.choice(['p', 'q', 'r1'])
+        targets.append((ridx, keys, n, k, f))
+  rng.shuffle(targets)
+  for ridx, keys, n, k, f in targets[:8]:
+    cands = compatible_nodes(forest, (ridx, keys + [k]), f.value, set())
+    roots = [c for c in cands if not c[1]]
+    if roots and rng.random() < 0.75:
+      cands = roots
+    if not cands:
+      continue
+    sr, sk = rng.choice(cands)
+    v = ['node', sr, sk]
+    stats['typed_move_operands'] += 1
+    form = rng.random()
+    if isinstance(n, pg.List):
+      if form < 0.4:
+        return {'op': 'List.append', 'at': [ridx, keys], 'args': {'v': v}, 'scopes': []}
+      if form < 0.6 and len(n):
+        return {'op': 'List.__setitem__[int]', 'at': [ridx, keys],
+                'args': {'i': rng.randrange(len(n)), 'v': v}, 'scopes': ['writable']}
+      return rebind_step(*address(rng, ridx, keys, [len(n)]), v, rng, [])
+    if form < 0.35:
+      op = 'Dict.__setitem__' if isinstance(n, pg.Dict) else 'Object.__setattr__'
+      if isinstance(n, pg.Dict) or k in set(n.sym_keys()):
+        return {'op': op, 'at': [ridx, keys], 'args': {'k': k, 'v': v}, 'scopes': ['writable']}
+    return rebind_step(*address(rng, ridx, keys, [k]), v, rng, [])
+  return None
+
+
+def gen_step(rng, forest, p_scope, stats, max_nodes=60):
+  """H.gen_step over the typed nodes of the forest with the widened value source."""
+  nodes = H.all_nodes(forest)
+  typed = [x for x in nodes if is_typed(x[2])]
+  nodes = typed or nodes
+  if not nodes:
+    return None
+  for _ in range(20):
+    ridx, keys, node = rng.choice(nodes)
+    cands = [o for o in O.ops_for(node, ('mutate', 'new')) if o.name != 'json-roundtrip']
+    if len(nodes) > max_nodes:
+      cands = [o for o in cands if o.effect != 'new'] or cands
+    if not cands:
+      continue
+    o = rng.choice(cands)
+    vs = Values(forest, (ridx, keys), stats=stats, p_alias=0.08, p_invalid=0.2, typed=True,
+                allow_root_alias=True)
+    args = o.gen(O.GenEnv(rng, vs, forest), node)
+    if args is None:
+      continue
+    sc = [name for name, p in p_scope.items() if rng.random() < p]
+    return {'op': o.name, 'at': [ridx, keys], 'args': args, 'scopes': sc}
+  return None
+
+
+def zero_field_count(forest):
+  n = 0
+  for _, _, node in SM.typed_nodes(forest):
+    schema, _ = SM.schema_of(node)
+    if schema is not None and not list(schema.fields.keys()):
+      n += 1
+  return n
+
+
+def observe(ctx, rng, forest):
+  """Derived-state queries a user can issue at any time; they must not matter."""
+  nodes = H.all_nodes(forest)
+  picked = [x for x in nodes if not x[1]]
+  picked += [rng.choice(nodes) for _ in range(min(2, len(nodes)))]
+  for _, _, n in picked:
+    g = rng.choice(OBSERVERS)
+    ctx.label = 'observe:' + g
+    if g == 'sym_missing[flat]':
+      n.sym_missing(flatten=True)
+    else:
+      a = getattr(n, g)
+      if callable(a):
+        a()
+    ctx.label = None
+    ctx.counters['observations'] += 1
 
 
 def setup(ctx):
@@ -150,41 +521,89 @@ def run_case(ctx, i):
   c = ctx.counters
   label, root = make_root(rng)
   forest = [root]
-  c['root:' + type(root).__name__] += 1
-  first = SM.schema_ok(forest, c)
-  c['schema_ok_evals'] += 1
+  labels = [label]
+  if rng.random() < 0.55:
+    # companions: values that can be moved into / hold members of the first root
+    for _ in range(rng.choice([1, 1, 2])):
+      l2, r2 = nested_root(rng)
+      forest.append(r2)
+      labels.append(l2)
+  label = ' ; '.join(labels)
+  for r in forest:
+    c['root:' + type(r).__name__] += 1
+  taint = set()        # indices of roots that were explicitly made partial
+
+  def tolerate(ridx, keys, node):
+    return ridx in taint or SM.reached_unconstrained(forest[ridx], keys)
+
+  def check():
+    c['schema_ok_evals'] += 1
+    return SM.schema_ok_nodes(forest, c, tolerate)
+
+  c['zero_field_nodes'] += zero_field_count(forest)
+  first = check()
   for clause, detail in first:
     ctx.violation(clause, 'construction', detail, {'root': label})
   if first:
     return
   trace, kinds, n_ok, n_rej = [], [], 0, 0
   scope_p = {'writable': 0.45, 'notify_off': 0.08, 'partial': 0.1}
-  partial_used = False
   n_steps = rng.randint(ctx.params['steps'] // 2, ctx.params['steps'])
-  for _ in range(n_steps):
-    step = H.gen_step(
-        rng, forest, effects=('mutate', 'new'), p_scope=scope_p,
-        op_filter=lambda o: o.name not in ('json-roundtrip',),
-        value_source_kwargs=dict(
-            # copies of explicitly partial values are not generated (their
-            # partiality outside the partial tree is not specified)
-            p_alias=0.0 if (partial_used or any_partial(forest)) else 0.08,
-            p_invalid=0.2, typed=True, allow_root_alias=False))
-    if step is None:
-      break
+
+  def heal_root(j):
+    r = forest[j]
+    try:
+      forest[j] = pg.from_json(pg.to_json(r), allow_partial=bool(r.allow_partial or j in taint))
+    except Exception:  # pylint: disable=broad-except
+      forest[j] = None
+
+  def after_step(step, status, result, before, mech, record):
+    """All checks after one executed step; returns (clauses found, clean
+    parentless operands of a rejected write)."""
+    nonlocal n_ok, n_rej
     o = O.OPS[step['op']]
-    before = snapshot(forest)
-    ctx.label = step['op']
-    status, result = O.execute(forest, step)
-    ctx.label = None
-    H.adopt_result(forest, step, status, result)
-    H.drop_moved_roots(forest)
-    trace.append(O.show_step(step) + (f' -> {type(result).__name__}' if status == 'raise' else ''))
-    kinds.append((step['op'], status))
-    c['op:' + step['op']] += 1
-    mech = H.mechanism(step, status)
     witness = {'root': label, 'history': trace[-12:]}
     found = collections.OrderedDict()
+    if 'partial' in step['scopes']:
+      taint.add(step['at'][0])       # values were explicitly made partial
+      c['partial_scope_writes'] += 1
+    # Operands of a rejected write are values of their own: if they carry a
+    # schema afterwards they must satisfy it. (Their content is a don't-care.)
+    clean, skip, flagged = [], set(), False
+    if status == 'raise':
+      tol = (lambda *_: True) if 'partial' in step['scopes'] else None
+      for d, x, pre_spec in operands_of(record):
+        fresh = d[0] != 'node'
+        if fresh and stored_in_parent(x):
+          continue                 # stored by the valid prefix of a batch
+        if not fresh and not isinstance(x, (pg.Dict, pg.List)):
+          continue                 # a live object: covered by the forest check
+        c['rejected_operand_checks'] += 1
+        if fresh or pre_spec is None:
+          # built by the step, or schema-less before it: nobody made it partial
+          probs = SM.schema_ok_nodes([x], None, tol)
+        else:
+          # a live node passed as operand (the library validates it in place and
+          # stores a copy unless it is a root): judged where it lives
+          ar, ak = d[1], list(d[2])
+          probs = SM.schema_ok_nodes(
+              [x], None, tol or (lambda _r, k, n, ar=ar, ak=ak: tolerate(ar, ak + k, n)))
+        if not probs:
+          if fresh:
+            clean.append(x)
+          continue
+        cl, detail = probs[0]
+        ctx.violation(
+            'rejected-operand-invalid', kind_of(x),
+            f'after step {len(trace)}: {trace[-1]}\nthe operand {srepr(x)} of the rejected '
+            f'write (value_spec before: {pre_spec!r:.80}) now has allow_partial='
+            f'{x.allow_partial}, value_spec='
+            f'{getattr(x, "value_spec", None)!r:.200} and violates it ({cl}): {detail}', witness)
+        c['rejected_operands_invalid'] += 1
+        flagged = True
+        if not fresh:
+          skip.add(d[1])           # the root it lives in is judged by this finding
+    view = [None if j in skip else r for j, r in enumerate(forest)]
     if status == 'raise':
       n_rej += 1
       c['steps_rejected'] += 1
@@ -194,32 +613,101 @@ def run_case(ctx, i):
                                 'type/value/key (or index/write-permission) error')
       if not o.batch and o.effect == 'mutate':
         c['rejected_unchanged_checks'] += 1
-        after = snapshot(forest)
-        if after[:len(before)] != before:
+        after = snapshot(view)
+        was = [None if j in skip else b for j, b in enumerate(before)]
+        if after[:len(was)] != was:
           found['rejected-write-stored'] = (
-              'the call raised but the tree changed:\n before=' + str(before)[:400] +
+              'the call raised but the tree changed:\n before=' + str(was)[:400] +
               '\n after =' + str(after)[:400])
     else:
       n_ok += 1
       c['steps_ok'] += 1
-    if 'partial' in step['scopes']:
-      partial_used = True          # values were explicitly made partial
-      c['partial_scope_writes'] += 1
-    for clause, detail in SM.schema_ok(forest, c, tolerate_partial=partial_used):
-      found.setdefault(clause, detail)
+      if o.effect == 'new' and any(result is r for r in forest) and (
+          step['at'][0] in taint or 'partial' in step['scopes']):
+        taint.add(next(j for j, r in enumerate(forest) if r is result))
     c['schema_ok_evals'] += 1
+    for clause, detail in SM.schema_ok_nodes(view, c, tolerate):
+      found.setdefault(clause, detail)
     for clause, detail in found.items():
       ctx.violation(clause, mech, f'after step {len(trace)}: {trace[-1]}\n{detail}', witness)
+    for j in skip:
+      heal_root(j)
+      c['operand_root_heals'] += 1
+    return found, clean, bool(skip) or flagged
+
+  for _ in range(n_steps):
+    if rng.random() < 0.5:
+      observe(ctx, rng, forest)
+    r = rng.random()
+    step = None
+    if r < 0.09:
+      step = gen_make_missing(rng, forest)
+      c['directed:make-missing'] += step is not None
+    elif r < 0.16:
+      step = gen_undeclared(rng, forest)
+      c['directed:undeclared-key'] += step is not None
+    elif r < 0.26:
+      step = gen_move(rng, forest, c)
+      c['directed:move'] += step is not None
+    if step is None:
+      step = gen_step(rng, forest, scope_p, c)
+    if step is None:
+      break
+    record = []
+    single = not O.OPS[step['op']].batch and O.OPS[step['op']].effect == 'mutate'
+    before = snapshot(forest) if single else None
+    ctx.label = step['op']
+    status, result = execute(forest, step, record=record)
+    ctx.label = None
+    H.adopt_result(forest, step, status, result)
+    H.drop_moved_roots(forest)
+    if any(d and d[0] == 'node' for d, _, _ in record):
+      c['typed_moves'] += 1
+    trace.append(O.show_step(step) + (f' -> {type(result).__name__}' if status == 'raise' else ''))
+    kinds.append((step['op'], status))
+    c['op:' + step['op']] += 1
+    mech = H.mechanism(step, status)
+    typed_ops = [kind_of(x) for _, x, pre in operands_of(record)
+                 if isinstance(x, (pg.Dict, pg.List)) and pre is not None]
+    if typed_ops and status == 'ok':
+      # an operand that already carries a spec of its own: the entry point is the
+      # typed-operand path of the write, whatever the operation
+      mech = f'typed-operand[{typed_ops[0]}]'
+      c['typed_container_operands'] += 1
+    found, clean, flagged = after_step(step, status, result, before, mech, record)
+    if status == 'raise' and not found and not flagged and record and rng.random() < 0.5 and (
+        clean or any(d and d[0] == 'node' and not d[2] for d, _, _ in record)):
+      # The same write again with the very same operand objects.
+      c['retries'] += 1
+      before = snapshot(forest) if single else None
+      ctx.label = step['op']
+      status2, result2 = execute(forest, step, replay=record)
+      ctx.label = None
+      H.adopt_result(forest, step, status2, result2)
+      H.drop_moved_roots(forest)
+      trace.append('retry of the previous step with the same operand objects' +
+                   (f' -> {type(result2).__name__}' if status2 == 'raise' else ' -> accepted'))
+      kinds.append((step['op'] + '@retry', status2))
+      c['retry:' + status2] += 1
+      mech = step['op'] + '@retry' + ('!rejected' if status2 == 'raise' else '')
+      found, clean, flagged = after_step(step, status2, result2, before, mech, record)
+    # Rejected operands stay available: later steps may use them elsewhere.
+    if not found:
+      for x in clean:
+        if len(forest) < 7 and rng.random() < 0.5 and not stored_in_parent(x) and (
+            x.sym_parent is None):
+          forest.append(x)
+          if 'partial' in step['scopes']:
+            taint.add(len(forest) - 1)
+          c['operands_kept'] += 1
     if found:
       c['heals'] += 1
-      healed = []
-      for r in forest:
-        try:
-          healed.append(pg.from_json(pg.to_json(r)) if isinstance(r, pg.Symbolic) else None)
-        except Exception:  # pylint: disable=broad-except
-          healed.append(None)
-      forest[:] = healed
-      if SM.schema_ok(forest, tolerate_partial=partial_used) or not any(isinstance(r, pg.Symbolic) for r in forest):
+      for j, r in enumerate(forest):
+        if isinstance(r, pg.Symbolic):
+          heal_root(j)
+        else:
+          forest[j] = None
+      if check() or not any(isinstance(r, pg.Symbolic) for r in forest):
         c['abandoned'] += 1
         break
     if H.total_size(forest) > 300:
